@@ -550,9 +550,9 @@ func c05bTreeDiff(path string, want, got *c05bNode, cfg c05bCfg, verbatim bool) 
 			return cl, fmt.Sprintf("%s: attribute %s=%q lost", p, a.name(), a.val)
 		}
 		if verbatim {
-			// the lexer replaces TAB, LF and CR inside quoted values by spaces (XML attribute-value normalisation)
-			sp := strings.NewReplacer("\t", " ", "\n", " ", "\r", " ")
-			if sp.Replace(a.val) != sp.Replace(got.attrs[k].val) {
+			// the lexer replaces TAB, LF and CR inside quoted values by spaces (XML attribute-value normalisation; CR LF
+			// gives two spaces: dependency finding K-C06-7)
+			if c05bNormWs(a.val) != c05bNormWs(got.attrs[k].val) {
 				return "attr-value", fmt.Sprintf("%s: attribute %s=%q became %q (foreignObject content)", p, a.name(), a.val, got.attrs[k].val)
 			}
 		} else if cl := c05bSameValue(want.name(), a.name(), a.val, got.attrs[k].val); cl != "" {
